@@ -14,7 +14,8 @@ CHECKS = {
                 'member in agreement and owns its C string exactly when the tag is String; unit/uncertainty/definition keys agree. Equality '
                 'of particular values (NaN, extremes, UTF-8 bytes) through libhdf5 conversion is NOT decided.'
                 ' Added: R-GETTER, R-GROW (value data sets have no fixed maximum), R-DCPL, R-MEMTYPE, R-NULL-CSTR.'
-                ' Round 6: Property/Section setters hand the given value to the backend verbatim or through the tabled normaliser (R-SETVERB).',
+                ' Round 6: Property/Section setters hand the given value to the backend verbatim or through the tabled normaliser (R-SETVERB).'
+                ' Round 7: R-GETVERB, R-STOREVERB; no rejection after a mutation in Property/Section entry points (R-MBT slice).',
     },
     'C15': {
         'technique': 'static analysis: cell codec table agreement (Janus copyValue/copyData vs. to_data_type<T>), def-use rule for compound '
@@ -29,7 +30,8 @@ CHECKS = {
                 'before anything is created; the backend is never handed a count the vector does not cover. Cell values over all write histories '
                 'and the zero/empty fill of unwritten cells are libhdf5 behaviour: NOT decided.'
                 " Added: Janus member-of-cell clause, writeCells transfers the caller's list, R-STRIO, R-DCPL, R-GROW, R-MEMTYPE, R-SWAP, R-NULL-CSTR."
-                ' Round 6: column names and units are written and read back verbatim (R-DF-SCHEMA verbatim clause).',
+                ' Round 6: column names and units are written and read back verbatim (R-DF-SCHEMA verbatim clause).'
+                ' Round 7: text- and index-keyed overloads default the same trailing parameters (R-DF-OVERLOAD).',
     },
     'C01': {
         'technique': 'static analysis: writer/reader table agreement (DataType <-> HDF5 file/memory type, decoder, element size, to_data_type<T>) by '
@@ -44,7 +46,8 @@ CHECKS = {
                 'extent so growth/shrink is possible. Value equality of what libhdf5 returns (conversion of particular values, fill of grown '
                 'regions) is NOT decided.'
                 ' Added during seeding rounds: string marshalling pairs element i with element i and defines every element (R-STRIO); Compression is forwarded down to the data set creation (R-FORWARD-COMP); data set creation / access / transfer property lists carry no setting from a deny list (fill time, fill value, lossy filters) (R-DCPL); resized data sets have no fixed maximum (R-GROW); raw transfers get a memory type made from the buffer element type (R-MEMTYPE) in the right argument positions (R-ROLE, R-SWAP); backend objects cache nothing (R-NOCACHE).'
-                ' Round 6: every normally returning path of DataArrayHDF5::write/read performs the data set transfer (R-IOPATH).',
+                ' Round 6: every normally returning path of DataArrayHDF5::write/read performs the data set transfer (R-IOPATH).'
+                ' Round 7: convertData converts on every returning path; appendData compares shapes, not element counts (R-APPEND).',
     },
     'C02': {
         'technique': 'static analysis: storage-key agreement rule per backend field (setter / clearing overload / getter / creating constructor / '
@@ -58,7 +61,8 @@ CHECKS = {
                 'kind; close releases every id then the file; no mutating HDF5 result is dropped. Equality of the whole entity tree over all '
                 'operation histories (a model comparison over runtime states) is NOT decided.'
                 " Added: optional getters report 'not set' only for an absent key (R-GETTER); const backend methods never write (R-GETPURE); lookup tables in backend objects are coherent, no member is filled lazily, optGroup never answers 'absent' from memory (R-NOCACHE); index access iterates the creation-order index increasingly (R-ORDER); file property lists carry no denied setting (R-FAPL)."
-                ' Round 6: the time stamp text codec is time-zone/locale independent and parser and formatter agree (R-TIMECODEC).',
+                ' Round 6: the time stamp text codec is time-zone/locale independent and parser and formatter agree (R-TIMECODEC).'
+                ' Round 7: front-end setters/getters and backend stores are verbatim (R-SETVERB, R-GETVERB, R-STOREVERB); all constructors of a backend class bind a container member to the same group name (R-CTORPAIR); H5Object releases its id unconditionally (R-HIDREL).',
     },
     'C03': {
         'technique': 'static analysis: dominance-based validate-before-create rule over clang AST/CFG facts (custom checker)',
@@ -66,7 +70,8 @@ CHECKS = {
                 'name (and type) is validated and a same-kind existence test on the same name leads away from the '
                 'backend create call (R-VAL). It does not decide lookup/count/order agreement for runtime histories.'
                 ' Added: a child linked under the queried name is always found before any id search (R-NAMEFIRST); backend objects keep no stale lookup tables (R-NOCACHE); name/id filter predicates compare the attribute exactly (R-FILTER).'
-                ' Round 6: attribute searches accept a child only under exact equality (R-ATTRSEARCH); Identity carries the given name/id verbatim (R-IDENT).',
+                ' Round 6: attribute searches accept a child only under exact equality (R-ATTRSEARCH); Identity carries the given name/id verbatim (R-IDENT).'
+                ' Round 7: get-name buffers have (queried length + 1) elements (R-NAMEBUF); text lookups go through the name-first helpers (R-LOOKUP-VIA).',
     },
     'C10': {
         'level': 'proof',
@@ -81,7 +86,8 @@ CHECKS = {
         'note': 'Trusted base: clang 14 front end, tools/nixfacts.cc, nixsa/absint.py (the abstract interpreter), the '
                 'specification rows in nixsa/rules/r_ver.py and r_hdr.py. Assumes LocID::hasAttr/getAttr report the attribute '
                 'state faithfully (they are opaque booleans in the abstraction).'
-                ' Round 6: FormatVersion stores and returns its components without a value-losing integer conversion (R-VER-WIDTH).',
+                ' Round 6: FormatVersion stores and returns its components without a value-losing integer conversion (R-VER-WIDTH).'
+                ' Round 7: the Force flag reaches the backend for every mode (File::open forwarded clause).',
     },
     'C09': {
         'technique': 'static analysis: decision-table extraction + abstract interpretation (boolean abstraction, all paths) of '
@@ -94,7 +100,8 @@ CHECKS = {
                 'call has its result checked so that a refusal by libhdf5 (read-only file) becomes an exception. Byte identity and '
                 'content preservation themselves are libhdf5 behaviour: not decided.'
                 ' Added: raw HDF5 ids reach their owner before anything can throw (R-HIDOWN); file property list deny list (R-FAPL); const backend methods never write (R-GETPURE); existence queries check() their result (R-ERR-EXISTS); header verdict judged by outcome only.'
-                ' Round 6: the front-end existence test follows symbolic links like the open call does (status vs symlink_status modelled).',
+                ' Round 6: the front-end existence test follows symbolic links like the open call does (status vs symlink_status modelled).'
+                ' Round 7: open flags and compression reach the backend for every mode (R-HDR-CTOR forwarded clause); R-HIDREL.',
     },
     'C11': {
         'technique': 'static analysis: must-pass-through (post-dominance) and who-may-call rules on FileHDF5::flush/close and '
@@ -105,7 +112,8 @@ CHECKS = {
                 '(throws when empty); mutating HDF5 results are checked. Durability against SIGKILL / what libhdf5 has written is a '
                 'crash-point property outside static reach: NOT decided (partial claim).'
                 " Added: R-FAPL (libver bounds / close degree), R-HIDOWN, R-ERR-EXISTS (stale handles raise instead of answering 'absent')."
-                ' Round 6: flush() reports success only on paths that ran H5Fflush without error (path enumeration; ReadOnly shortcut accepted).',
+                ' Round 6: flush() reports success only on paths that ran H5Fflush without error (path enumeration; ReadOnly shortcut accepted).'
+                ' Round 7: H5Object releases its id unconditionally (R-HIDREL).',
     },
     'C12': {
         'technique': 'static analysis: entropy-source classification of the generator chain in util::createId (def-use over static '
@@ -127,7 +135,8 @@ CHECKS = {
                 '(every front-end sink call site is guarded), optional parameters stored iff not default (negative offsets), alias '
                 'preconditions and redirection of every label/unit/ticks accessor. Value equality on read-back and ticks written '
                 'through the aliased array are not decided.'
-                ' Added: key/getter/codec rules for dimension descriptors, R-TICKS (alias ticks replace the array), R-MBT slice for the append/create entry points, R-COLIDX, R-MEMTYPE.',
+                ' Added: key/getter/codec rules for dimension descriptors, R-TICKS (alias ticks replace the array), R-MBT slice for the append/create entry points, R-COLIDX, R-MEMTYPE.'
+                ' Round 7: dimension setters/getters and backend stores are verbatim (R-SETVERB, R-GETVERB, R-STOREVERB).',
     },
     'C18': {
         'technique': 'static analysis: constant-table agreement (regex alternatives / factor map / SI exponents), alternation-order '
@@ -140,7 +149,8 @@ CHECKS = {
                 'indexOf; tag units are sanitised and SI-checked before storage. Floating-point exactness, composition a->b->c as a '
                 'numeric identity and selection invariance are not decided.'
                 ' Added: memo-wrapper idiom with key injectivity, R-MEMO, R-PARALLEL, R-UNIT-SCALEPOS (case-sensitive unit equality).'
-                ' Round 6: the [prefix]unit grammar is unambiguous (R-UNIT-TAB).',
+                ' Round 6: the [prefix]unit grammar is unambiguous (R-UNIT-TAB).'
+                ' Round 7: R-ALIGNED.',
     },
     'C19': {
         'technique': 'static analysis: rule-table extraction from the validate overloads (level/getter/predicate/parent), channel '
@@ -152,7 +162,8 @@ CHECKS = {
                 'and keeps every result, and no predicate loop lets a later element overwrite an untested verdict. The arithmetic of '
                 'the predicates themselves (isScalable, sizes) is not decided.'
                 ' Added: R-VALID-COND (a throwing getter fails the condition), isScalable specification (R-UNIT-SCALE).'
-                ' Round 6: the unit tables behind isScalable are checked here too (R-UNIT-TAB).',
+                ' Round 6: the unit tables behind isScalable are checked here too (R-UNIT-TAB).'
+                ' Round 7: validator and tick setters decide sortedness with one predicate (R-VALID-SORTED).',
     },
     'C04': {
         'technique': 'static analysis: role table of removal sites filled from interface overriders, who-may-call and call-graph '
@@ -164,7 +175,8 @@ CHECKS = {
                 'object has no path; handle validity = link count > 0; positions/extents/feature-data getters re-check block '
                 'membership. Bit-identity of all other entities and HDF5 link bookkeeping are not decided.'
                 " Added: raw buffers handed to C APIs were sized, not only reserved (R-RAWBUF, guards removeAllLinks' name loop); no backend object caches a resolved entity (R-NOCACHE)."
-                ' Round 6: by-handle delete/remove overloads identify the entity by its id (R-BYHANDLE; found and fixed D24/D25); R-ATTRSEARCH.',
+                ' Round 6: by-handle delete/remove overloads identify the entity by its id (R-BYHANDLE; found and fixed D24/D25); R-ATTRSEARCH.'
+                ' Round 7: R-NAMEBUF.',
     },
     'C20': {
         'technique': 'static analysis: work-list discipline rule (insertion/removal ends resolved through helpers), guard-fact and '
@@ -175,7 +187,8 @@ CHECKS = {
                 'covered by File::findSections / Block::findSources, back references enumerate all blocks / nested sources with '
                 'MetadataFilter(id()) resp. SourceFilter(id()), inherited properties shadow by name. Equality with a brute-force '
                 'traversal for all trees is not decided.'
-                ' Added: R-FILTER, results only through the work list, no early exit from the root loop, R-NOCACHE.',
+                ' Added: R-FILTER, results only through the work list, no early exit from the root loop, R-NOCACHE.'
+                ' Round 7: text lookups go through the name-first helpers (R-LOOKUP-VIA).',
     },
     'C07': {
         'technique': 'static analysis: abstract interpretation with symbolic results on every abstract path (boolean abstraction of all '
@@ -188,7 +201,8 @@ CHECKS = {
                 '+-1 adjustment, the range helper handles before-first / after-last / lower_bound adjustment as specified. The '
                 'floating-point behaviour of the epsilon test (0.1-interval rounding) is NOT decided.'
                 ' Added: PositionMatch forwarding (R-FORWARD-PM), checked upper_bound idiom, exact-hit polynomial, loop-invariance of vector overloads, stale-size rule (R-STALE).'
-                ' Round 6: R-POSPASS; same-typed adjacent parameters are passed in declaration order (R-SWAP).',
+                ' Round 6: R-POSPASS; same-typed adjacent parameters are passed in declaration order (R-SWAP).'
+                ' Round 7: no element of a list is answered before the pair function was asked (R-PAIR-VEC bypass clause).',
     },
     'C05': {
         'technique': 'static analysis: abstract interpretation (boolean abstraction, loops as one arbitrary iteration, symbolic stores) of '
@@ -199,7 +213,8 @@ CHECKS = {
                 'values, feature dispatch per link type, range-pair composition. Which elements come back for given floating-point '
                 'positions and the padding extent of unspecified dimensions are numeric: NOT decided.'
                 ' Added: the RangeMatch argument is forwarded to every callee (R-FORWARD); per-dimension containers are read at one index (R-PARALLEL); no function-static memo with an incomplete key (R-MEMO); the bounds predicate positionAndExtentInData is itself checked (R-INDATA); exact-hit test of the sampled helper is the polynomial r*interval+offset-position (R-MATCH); swapped-argument rule (R-SWAP); stale-size rule (R-STALE).'
-                ' Round 6: positionToIndex overloads delegate with the position unchanged (R-POSPASS).',
+                ' Round 6: positionToIndex overloads delegate with the position unchanged (R-POSPASS).'
+                ' Round 7: R-UNIT-SCALEPOS with loop-carried state; per-dimension containers only grow at the end (R-ALIGNED).',
     },
     'C06': {
         'technique': 'static analysis: abstract interpretation of getOffsetAndCount(MultiTag)/taggedData/featureData (all abstract '
@@ -208,7 +223,8 @@ CHECKS = {
                 'guard before reading, per-index offset/count from the range at one dimension index, point fall-back stored into the '
                 'offset handed to the caller (dead-store rule), view after bounds test, indexed/tagged/untagged feature dispatch. '
                 'Element selection for particular floating-point positions is numeric: NOT decided.'
-                ' Added: rows are read at indices[idx] before each use, block reads only under a whole-list test; index bound for indexed/untagged features; R-FORWARD, R-PARALLEL, R-MEMO, R-INDATA, R-PAIR-VEC (no state carried between list elements), R-SWAP, R-STALE.',
+                ' Added: rows are read at indices[idx] before each use, block reads only under a whole-list test; index bound for indexed/untagged features; R-FORWARD, R-PARALLEL, R-MEMO, R-INDATA, R-PAIR-VEC (no state carried between list elements), R-SWAP, R-STALE.'
+                ' Round 7: R-UNIT-SCALEPOS with loop-carried state; R-ALIGNED.',
     },
     'C17': {
         'technique': 'static analysis: abstract interpretation of dataSlice, DataView (ctor, transform_coordinates, ioRead/ioWrite) and '
@@ -218,7 +234,8 @@ CHECKS = {
                 'all descriptor kinds; DataView checks its window at construction, compares each request with the window extent and '
                 'translates by the window origin; NDSize <=,<,>,>= have the element-wise meaning the guards rely on; subscripts on '
                 'caller-owned vectors are bounded. Which elements a position pair selects is numeric: NOT decided.'
-                ' Added: NDSize comparisons are treated component-wise by the interpreter; guarded-subtraction idiom; R-INDATA; R-MEMO; R-UNIT-SCALEPOS; R-FILL understands padding through maximumExtents; R-SWAP.',
+                ' Added: NDSize comparisons are treated component-wise by the interpreter; guarded-subtraction idiom; R-INDATA; R-MEMO; R-UNIT-SCALEPOS; R-FILL understands padding through maximumExtents; R-SWAP.'
+                ' Round 7: start > end is tested on the padded vectors that are converted (R-SLICE, syntax-level facts); R-ALIGNED.',
     },
     'C08': {
         'technique': 'static analysis: interprocedural clean/dirty typestate over the closed-world call graph and per-function CFGs '
@@ -229,7 +246,8 @@ CHECKS = {
                 're-verified on every run; plus validate-before-create at every create entry point. 9 instances (Group member '
                 'replacement, sources(vector) with an uninitialised handle) are recorded known findings. State equality itself and '
                 'rejections raised inside libhdf5 are not decided.'
-                ' Added: conditional discharges require the validating loop to test under the key the later call uses; name-first lookups (R-NAMEFIRST); optGroup negative-memory clause (R-NOCACHE).',
+                ' Added: conditional discharges require the validating loop to test under the key the later call uses; name-first lookups (R-NAMEFIRST); optGroup negative-memory clause (R-NOCACHE).'
+                ' Round 7: R-APPEND shape guard; element type compared before a resize (R-TYPEGATE), empty / Nothing columns and ranks above H5S_MAX_RANK refused before anything is created (R-DF-FRONT, R-RANKGATE) - these three guard the defects D26-D28, rejections that come from libhdf5 and that R-MBT does not see.',
     },
     'C16': {
         'technique': 'static analysis: repository-specific lint set over the resolved program - guard-fact (dominance) rules for '
@@ -241,7 +259,8 @@ CHECKS = {
                 'unguarded NDSize/NDArray element access, unguarded front-end index getters, size narrowing to element types, '
                 'buffer/count disagreement at I/O primitives, unchecked HDF5 results. Other programs / other idioms are not covered.'
                 ' Added: R-VECFILL, R-RAWBUF, R-COLIDX, R-NULL-CSTR, R-STALE, R-ERR-EXISTS.'
-                ' Round 6: no library value type keeps a reference to a constructor argument outside the reviewed table (R-REFMEMBER).',
+                ' Round 6: no library value type keeps a reference to a constructor argument outside the reviewed table (R-REFMEMBER).'
+                " Round 7: R-NAMEBUF; memory space is created from the caller's count on every path (R-ROLE).",
     },
 }
 
